@@ -357,6 +357,9 @@ func (x *Exec) branch(st *State, fr *Frame, b *ssa.BasicBlock, cond string) {
 		x.enterBlock(st, fr, b, b.Succs[1])
 		return
 	}
+	if x.mergeDiamond(st, fr, b, cond) {
+		return
+	}
 	x.forks++
 	if x.forks > maxForks {
 		bail("path budget exceeded (%d forks)", maxForks)
@@ -1344,15 +1347,18 @@ func (x *Exec) paramCellable(p *ssa.Parameter, depth int) bool {
 
 // anchoredUses applies "use lemma(args) at V" the first time local variable V is bound on this path.
 func (x *Exec) anchoredUses(st *State, fr *Frame, dr *ssa.DebugRef) {
-	name := dr.Object().Name()
+	if _, ok := fr.vals[dr.X]; !ok {
+		if _, isC := dr.X.(*ssa.Const); !isC {
+			return
+		}
+	}
+	x.anchoredByName(st, fr, dr.Object().Name())
+}
+
+func (x *Exec) anchoredByName(st *State, fr *Frame, name string) {
 	for i, au := range x.con.AnchoredUses {
 		if au.Anchor != name {
 			continue
-		}
-		if _, ok := fr.vals[dr.X]; !ok {
-			if _, isC := dr.X.(*ssa.Const); !isC {
-				continue
-			}
 		}
 		key := fmt.Sprintf("anchored:%d", i)
 		if st.ghost[key] != "" {
@@ -1374,4 +1380,234 @@ func (x *Exec) bumpPath() {
 	if x.paths > 6000 || len(x.obls) > 120000 {
 		bail("path explosion: more than %d paths / %d obligations; give callees contracts", x.paths, len(x.obls))
 	}
+}
+
+// mergeDiamond handles  if c { x = a } else { x = b }  (and the one-armed form) without forking the path when
+// the arms only read fields of pointers already known to be non-nil: both arms are executed (they have no effects)
+// and the phis of the join block become ite(c, a, b). Semantically the same as forking; halves the number of paths.
+func (x *Exec) mergeDiamond(st *State, fr *Frame, b *ssa.BasicBlock, cond string) bool {
+	if len(b.Succs) != 2 {
+		return false
+	}
+	t, f := b.Succs[0], b.Succs[1]
+	arm := func(blk, join *ssa.BasicBlock) bool { // blk is a side arm jumping to join
+		if len(blk.Preds) != 1 || len(blk.Succs) != 1 || blk.Succs[0] != join {
+			return false
+		}
+		known := map[ssa.Value]Val{}
+		for i, in := range blk.Instrs {
+			switch in := in.(type) {
+			case *ssa.DebugRef:
+			case *ssa.Jump:
+				if i != len(blk.Instrs)-1 {
+					return false
+				}
+			case *ssa.FieldAddr:
+				pv, ok := known[in.X]
+				if !ok {
+					pv, ok = fr.vals[in.X]
+				}
+				if !ok || pv.K != KPtr || pv.Ptr == nil {
+					return false
+				}
+				if pv.Ptr.Local == nil && !pv.Ptr.Fresh && !st.factSet[not(sx("=", x.termOf(pv), "0"))] {
+					return false
+				}
+			case *ssa.UnOp:
+				if in.Op != token.MUL {
+					return false
+				}
+				if al, ok := in.X.(*ssa.Alloc); ok {
+					// load of a local variable of this function
+					pv, ok := fr.vals[al]
+					if !ok || pv.K != KPtr || pv.Ptr == nil || len(pv.Ptr.Path) != 0 || (pv.Ptr.Local == nil && !pv.Ptr.Fresh) {
+						return false
+					}
+					if pv.Ptr.Local != nil {
+						if _, init := st.cells[pv.Ptr.Local]; !init {
+							return false
+						}
+					}
+					known[in] = x.load(st, pv.Ptr)
+					continue
+				}
+				if _, ok := in.X.(*ssa.FieldAddr); !ok {
+					return false
+				}
+				if in.X.(*ssa.FieldAddr).Block() != blk {
+					return false
+				}
+			case *ssa.Store:
+				// a store of a scalar into a variable of this function (captured locals are allocations)
+				al, ok := in.Addr.(*ssa.Alloc)
+				if !ok {
+					return false
+				}
+				pv, ok := fr.vals[al]
+				if !ok || pv.K != KPtr || pv.Ptr == nil || len(pv.Ptr.Path) != 0 || (pv.Ptr.Local == nil && !pv.Ptr.Fresh) {
+					return false
+				}
+				switch x.P.ss.kindOf(al.Type().Underlying().(*types.Pointer).Elem()) {
+				case KInt, KBool, KFloat:
+				default:
+					return false
+				}
+			default:
+				return false
+			}
+		}
+		return true
+	}
+	var join *ssa.BasicBlock
+	var arms []*ssa.BasicBlock
+	switch {
+	case len(t.Succs) == 1 && len(f.Succs) == 1 && t.Succs[0] == f.Succs[0] && arm(t, t.Succs[0]) && arm(f, f.Succs[0]):
+		join, arms = t.Succs[0], []*ssa.BasicBlock{t, f}
+	case len(t.Succs) == 1 && t.Succs[0] == f && arm(t, f):
+		join, arms = f, []*ssa.BasicBlock{t}
+	case len(f.Succs) == 1 && f.Succs[0] == t && arm(f, t):
+		join, arms = t, []*ssa.BasicBlock{f}
+	default:
+		return false
+	}
+	if join == t && len(arms) == 2 || len(join.Preds) != 2 {
+		return false
+	}
+	li := x.P.loopInfo(fr.fn)
+	if li.Loops[join] != nil || li.Loops[t] != nil || li.Loops[f] != nil {
+		return false
+	}
+	// the phis of the join must be mergeable as terms
+	var phis []*ssa.Phi
+	first := 0
+	for _, in := range join.Instrs {
+		if ph, ok := in.(*ssa.Phi); ok {
+			phis = append(phis, ph)
+			first++
+			continue
+		}
+		break
+	}
+	for _, ph := range phis {
+		switch x.P.ss.kindOf(ph.Type()) {
+		case KInt, KBool, KFloat, KErr, KSlice:
+		default:
+			return false
+		}
+	}
+	type armStore struct {
+		al  *ssa.Alloc
+		val [2]*Val // value stored on the true / false side (nil: unchanged)
+	}
+	var stores []*armStore
+	for _, blk := range arms {
+		side := 0
+		if blk == f {
+			side = 1
+		}
+		for _, in := range blk.Instrs {
+			if _, isJ := in.(*ssa.Jump); isJ {
+				continue
+			}
+			if _, isD := in.(*ssa.DebugRef); isD {
+				continue
+			}
+			if sti, isS := in.(*ssa.Store); isS {
+				v := x.get(st, fr, sti.Val)
+				al := sti.Addr.(*ssa.Alloc)
+				var as *armStore
+				for _, s0 := range stores {
+					if s0.al == al {
+						as = s0
+					}
+				}
+				if as == nil {
+					as = &armStore{al: al}
+					stores = append(stores, as)
+				}
+				as.val[side] = &v
+				continue
+			}
+			x.simple(st, fr, in)
+		}
+	}
+	for _, as := range stores {
+		pv := fr.vals[as.al]
+		old := x.load(st, pv.Ptr)
+		vt, vf := old, old
+		if as.val[0] != nil {
+			vt = *as.val[0]
+		}
+		if as.val[1] != nil {
+			vf = *as.val[1]
+		}
+		n := x.freshName("ms_" + as.al.Comment)
+		srt := x.P.ss.sortOf(as.al.Type().Underlying().(*types.Pointer).Elem())
+		if old.K == KBool {
+			srt = "Bool"
+		}
+		st.declare(n, srt)
+		st.assume(sx("=", n, ite(cond, vt.T, vf.T)))
+		mv := old
+		mv.T = n
+		mv.Lo, mv.Hi = nil, nil
+		if pv.Ptr.Local != nil {
+			st.cells[pv.Ptr.Local] = mv
+		} else {
+			x.store(st, pv.Ptr, mv)
+		}
+	}
+	// predecessor of join on the true / false side
+	predT, predF := t, f
+	if join == f {
+		predF = b
+	}
+	if join == t {
+		predT = b
+	}
+	edgeOf := func(p *ssa.BasicBlock) int {
+		for i, q := range join.Preds {
+			if q == p {
+				return i
+			}
+		}
+		return -1
+	}
+	et, ef := edgeOf(predT), edgeOf(predF)
+	if et < 0 || ef < 0 || et == ef {
+		bail("internal: diamond edges")
+	}
+	vals := make([]Val, len(phis))
+	for i, ph := range phis {
+		vt, vf := x.get(st, fr, ph.Edges[et]), x.get(st, fr, ph.Edges[ef])
+		if vt.T == vf.T {
+			vals[i] = vt
+			continue
+		}
+		n := x.freshName("m_" + ph.Comment)
+		srt := x.P.ss.sortOf(ph.Type())
+		if vt.K == KBool {
+			srt = "Bool"
+		}
+		st.declare(n, srt)
+		st.assume(sx("=", n, ite(cond, vt.T, vf.T)))
+		mv := vt
+		mv.T = n
+		mv.Lo, mv.Hi = nil, nil
+		vals[i] = mv
+	}
+	for i, ph := range phis {
+		fr.vals[ph] = vals[i]
+	}
+	st.trace = append(st.trace, fmt.Sprintf("b%d:M", b.Index))
+	if x.con != nil && fr.parent == nil {
+		for _, ph := range phis {
+			x.anchoredByName(st, fr, ph.Comment)
+		}
+		for _, as := range stores {
+			x.anchoredByName(st, fr, as.al.Comment)
+		}
+	}
+	x.run(st, fr, join, first)
+	return true
 }
